@@ -267,11 +267,18 @@ def main(repo, out):
     old = (r"let now = self\.now\(\); if let Some\(current_time\) = self\.state\.should_rollover\(now\) \{ if self\.state\.advance_date\(now, current_time\) \{ "
            r"self\.state\.refresh_writer\(now, &mut self\.writer\.write\(\)\); \} \} RollingWriter\(self\.writer\.read\(\)\)")
     new = (r"let now = self\.now\(\); if let Some\(current_time\) = self\.state\.should_rollover\(now\) \{ if self\.state\.advance_date\(now, current_time\) \{ "
-           r"let mut file = self\.writer\.write\(\); if self\.state\.is_latest_rotation\(now\) \{ self\.state\.refresh_writer\(now, &mut file\); \} \} \} "
+           r"let mut file = self\.writer\.write\(\); if self\.state\.is_latest_rotation\(now\) \{ self\.state\.refresh_writer\((now|self\.now\(\)), &mut file\); \} \} \} "
            r"RollingWriter\(self\.writer\.read\(\)\)")
+    # which clock reading names the file a rotation opens: the one taken at the start of the call (`now`, also used by
+    # should_rollover / advance_date / is_latest_rotation) or a second one taken at the refresh (`self.now()`).  Both shapes
+    # are recognised: the model follows the source (hop HW2), RollingTie.tie_first_reading pins the first.
+    first_reading = True
+    mnew = re.fullmatch(new, mw)
+    if mnew and mnew.group(1) != "now":
+        first_reading = False
     if re.fullmatch(old, mw):
         recheck = False
-    elif re.fullmatch(new, mw):
+    elif mnew:
         lr = body("is_latest_rotation")
         if re.fullmatch(r"let expected = self \.rotation \.next_date\(&now\) \.map\(\|date\| date\.unix_timestamp\(\) as usize\) \.unwrap_or\(0\); "
                         r"self\.next_date\.load\(Ordering::\w+\) == expected", lr):
@@ -282,6 +289,7 @@ def main(repo, out):
         unrec.append("make_writer shape")
         # keep the correspondence meaningful although the tie is already broken
         recheck = "if self.state.is_latest_rotation(now) { self.state.refresh_writer(" in mw
+        first_reading = "refresh_writer(self.now()" not in mw
 
     G = ["(* GENERATED by translators/rolling.py from tracing-appender/src/rolling.rs.  Rewritten on every run; do not edit. *)",
          "From Coq Require Import ZArith List String.", "Import ListNotations.", "Local Open Scope string_scope.", ""]
@@ -305,6 +313,7 @@ def main(repo, out):
     G.append("Definition gen_builder_defaults : list (string * string) := [%s]." % "; ".join("(%s, %s)" % (coq_str(k), coq_str(v)) for k, v in bdef))
     G.append("Definition gen_builder_setters : list (string * string) := [%s]." % "; ".join("(%s, %s)" % (coq_str(k), coq_str(v)) for k, v in bset))
     G.append("Definition gen_recheck : bool := %s." % ("true" if recheck else "false"))
+    G.append("Definition gen_refresh_uses_first_reading : bool := %s." % ("true" if first_reading else "false"))
     G.append("Definition gen_yield0 : bool := %s." % ("true" if yield0 else "false"))
     G.append("Definition gen_unrecognised : list string := [%s]." % "; ".join(coq_str(u) for u in unrec))
     text = "\n".join(G) + "\n"
